@@ -280,7 +280,15 @@ class StdioClient:
                             # NDJSON framing: one message is exactly one line, so a
                             # pretty-printed (or newline-terminated) string is
                             # re-serialised compactly instead of being sent as-is
-                            json_str = json.dumps(json.loads(json_str))
+                            # (stdlib json: exact for integers beyond 64 bits,
+                            # which the fast backend would read as floats)
+                            import json as _stdlib_json
+
+                            json_str = _stdlib_json.dumps(
+                                _stdlib_json.loads(json_str),
+                                ensure_ascii=False,
+                                separators=(",", ":"),
+                            )
                         msg_method = None
                         msg_id = None
                     elif isinstance(message, dict):
